@@ -331,6 +331,8 @@ def lower_search(fdef, cfg, me, repo, classdef=None):
                 if isinstance(n, ast.Assign) and len(n.targets) == 1 and isinstance(n.targets[0], ast.Name) and isinstance(n.value, ast.Constant) and isinstance(n.value.value, str):
                     consts["sw.SolverWrapper." + n.targets[0].id] = n.value.value
     models = set(); txt = ast.unparse
+    ctor_names = set(cfg["model_ctors"]) | {c.split(".")[-1] for c in cfg["model_ctors"] if "." in c and not c.startswith(me + ".")}     # `mod.K(..)` or, imported by name, `K(..)`
+    status_locals = set()      # locals bound to a status read: they hold what that read returned
     pure = {"time.perf_counter", "copy.deepcopy", "sorted", "round", "float", "int", "len", "range", "sum", "dict", "list", "id", "utils.fpid", me + ".solver.get_values"}
     if cfg["own_solver"]: pure.add(me + ".solver.get_model_status")
     pure |= set(cfg["pure_calls"])
@@ -356,7 +358,7 @@ def lower_search(fdef, cfg, me, repo, classdef=None):
         if len(cands) == 1: enum_local = cands[0]
     if cfg["optional_locals"]:
         optional = {v for v, rhs in assigns.items() if v != enum_local and any(is_none_(r) for r in rhs) and any(not is_none_(r) for r in rhs)
-                    and not any(isinstance(r, ast.Call) and ast.unparse(r.func) in cfg["model_ctors"] for r in rhs)}
+                    and not any(isinstance(r, ast.Call) and ast.unparse(r.func) in ctor_names for r in rhs)}
 
     def opaque_ok(e):
         for n in ast.walk(e):
@@ -395,6 +397,10 @@ def lower_search(fdef, cfg, me, repo, classdef=None):
             if len(n.ops) == 1 and isinstance(n.ops[0], (ast.Eq, ast.NotEq)):
                 a, b = n.left, n.comparators[0]
                 for x, y in ((a, b), (b, a)):
+                    if isinstance(x, ast.Name) and x.id in status_locals:
+                        name = y.value if isinstance(y, ast.Constant) and isinstance(y.value, str) else consts.get(txt(y))
+                        if name not in STATUS_CODE: raise Unsupported("a solver status compared with %s (only the optimal / infeasible / time-limit constants)" % txt(y), n)
+                        return ast.copy_location(ast.Compare(left=x, ops=n.ops, comparators=[ast.Constant(value=STATUS_CODE[name])]), n)
                     if is_status(x):
                         name = y.value if isinstance(y, ast.Constant) and isinstance(y.value, str) else consts.get(txt(y))
                         if name not in STATUS_CODE: raise Unsupported("a solver status compared with %s (only the optimal / infeasible / time-limit constants)" % txt(y), n)
@@ -470,7 +476,7 @@ def lower_search(fdef, cfg, me, repo, classdef=None):
     # locals that only feed erased bookkeeping (solver options handed to the k-model, start times): every assignment has a pure right-hand side and
     # every read sits in an erased statement, in a keyword argument (other than k) of the k-model's constructor, or in a log message
     def erasable_locals():
-        cand = {v for v, rhs in assigns.items() if all(opaque_ok(r) for r in rhs) and not any(isinstance(r, ast.Call) and txt(r.func) in cfg["model_ctors"] for r in rhs)
+        cand = {v for v, rhs in assigns.items() if all(opaque_ok(r) for r in rhs) and not any(isinstance(r, ast.Call) and txt(r.func) in ctor_names for r in rhs)
                 and v != enum_local and v not in optional}
         for n in ast.walk(fdef):          # subscript stores `L[..] = e` count as assignments of L
             if isinstance(n, ast.Assign) and len(n.targets) == 1 and isinstance(n.targets[0], ast.Subscript) and isinstance(n.targets[0].value, ast.Name) \
@@ -488,7 +494,7 @@ def lower_search(fdef, cfg, me, repo, classdef=None):
                     if target_attr(t) in cfg["erase_attrs"] or target_local(t) in cand or (cfg["chosen_range_len"] and target_attr(t) == cfg["chosen_range_len"]):
                         mark(n.value)
                         if isinstance(t, ast.Subscript): mark(t.slice); mark(t.value)
-                    if isinstance(n.value, ast.Call) and txt(n.value.func) in cfg["model_ctors"]:
+                    if isinstance(n.value, ast.Call) and txt(n.value.func) in ctor_names:
                         for k in n.value.keywords:
                             if k.arg != "k": mark(k.value)
                 if isinstance(n, ast.Expr) and isinstance(n.value, ast.Call) and txt(n.value.func).startswith("utils.logger."): mark(n.value)
@@ -505,12 +511,12 @@ def lower_search(fdef, cfg, me, repo, classdef=None):
         return any(isinstance(n, ast.Name) and n.id == name and isinstance(n.ctx, ast.Load) for n in ast.walk(e))
 
     for v, rhs in assigns.items():
-        if any(isinstance(r, ast.Call) and txt(r.func) in cfg["model_ctors"] for r in rhs): models.add(v)
+        if any(isinstance(r, ast.Call) and txt(r.func) in ctor_names for r in rhs): models.add(v)
     optmodels = {v for v in models if any(is_none_(r) for r in assigns[v])}      # a k-model local that is None until a model is built or taken
     late = set()        # k-model locals bound inside a loop: a read after the loop is an UnboundLocalError if the loop never bound them
     for loop in [n for n in ast.walk(fdef) if isinstance(n, (ast.For, ast.While))]:
         for n in ast.walk(loop):
-            if isinstance(n, ast.Assign) and len(n.targets) == 1 and isinstance(n.targets[0], ast.Name) and isinstance(n.value, ast.Call) and txt(n.value.func) in cfg["model_ctors"]:
+            if isinstance(n, ast.Assign) and len(n.targets) == 1 and isinstance(n.targets[0], ast.Name) and isinstance(n.value, ast.Call) and txt(n.value.func) in ctor_names:
                 late.add(n.targets[0].id)
     def n_loads(root, m): return sum(1 for n in ast.walk(root) if isinstance(n, ast.Name) and n.id == m and isinstance(n.ctx, ast.Load))
     top_loops = [st for st in fdef.body if isinstance(st, (ast.For, ast.While))]
@@ -528,6 +534,9 @@ def lower_search(fdef, cfg, me, repo, classdef=None):
                         out += stmts_of("if not %s__def:\n    raise UnboundLocalError()\n" % m, st); checked.add(m)
             if isinstance(st, ast.Assign) and len(st.targets) == 1:
                 t = st.targets[0]; v = st.value
+                if isinstance(t, ast.Name) and is_status(v):          # `status = X.solver.get_model_status()`: the local is what the last run reported
+                    status_locals.add(t.id)
+                    out += stmts_of("%s = SELF.o_last\n" % t.id, st); continue
                 if cfg["chosen_attr"] and target_attr(t) == cfg["chosen_attr"] and not isinstance(t, ast.Subscript) and isinstance(v, ast.Name) and v.id in models:
                     out += stmts_of("SELF.chosen = %s\n" % v.id, st); continue
                 if cfg["chosen_range_len"] and target_attr(t) == cfg["chosen_range_len"] and not isinstance(t, ast.Subscript):
@@ -539,7 +548,7 @@ def lower_search(fdef, cfg, me, repo, classdef=None):
                 if target_attr(t) in cfg["solved_attrs"] and not isinstance(t, ast.Subscript):
                     if not (isinstance(v, ast.Constant) and v.value is True): raise Unsupported("the solved flag set to something other than True", st)
                     out += stmts_of("SELF.solved = True\n", st); continue
-                if isinstance(t, ast.Name) and isinstance(v, ast.Call) and txt(v.func) in cfg["model_ctors"]:
+                if isinstance(t, ast.Name) and isinstance(v, ast.Call) and txt(v.func) in ctor_names:
                     kws = {k.arg: k.value for k in v.keywords}
                     if None in kws and not cfg["star_kwargs"]: raise Unsupported("** in the construction of the k-model", st)
                     if v.args or "k" not in kws or not all(opaque_ok(x) and not ({n.id for n in ast.walk(x) if isinstance(n, ast.Name)} & models) for a, x in kws.items() if a != "k"):
